@@ -149,4 +149,56 @@ theorem finish_disk (s : St) : (finish s).1.disk = s.disk ∧ (finish s).1.n = s
   dsimp only
   split <;> exact ⟨rfl, rfl⟩
 
+
+/-! ### a stale file appearing in an accepted/ directory -/
+
+theorem stale_ctl (s : St) (p : Nat) (nm : String) :
+    (addStale s p nm).n = s.n ∧ (addStale s p nm).live = s.live ∧ (addStale s p nm).pnOlds = s.pnOlds ∧
+    (addStale s p nm).trajNum = s.trajNum ∧ (addStale s p nm).trajData = s.trajData ∧
+    (addStale s p nm).restart = s.restart ∧ (addStale s p nm).cnt = s.cnt ∧ (addStale s p nm).txt = s.txt ∧
+    (addStale s p nm).pending = s.pending ∧ (addStale s p nm).dirs = s.dirs ∧
+    (addStale s p nm).delOld = s.delOld ∧ (addStale s p nm).delAll = s.delAll ∧
+    (addStale s p nm).variant = s.variant ∧ (addStale s p nm).keep = s.keep := by
+  unfold addStale
+  split <;> exact ⟨rfl, rfl, rfl, rfl, rfl, rfl, rfl, rfl, rfl, rfl, rfl, rfl, rfl, rfl⟩
+
+theorem stale_disk (s : St) (p : Nat) (nm : String) (g : DFile) (h : g ∈ s.disk) : g ∈ (addStale s p nm).disk := by
+  unfold addStale
+  split
+  · exact List.mem_cons_of_mem _ h
+  · exact h
+
+theorem stale_disk_inv (s : St) (p : Nat) (nm : String) (g : DFile) (h : g ∈ (addStale s p nm).disk) :
+    g ∈ s.disk ∨ (g = .acc p nm ∧ DDir.accepted p ∈ s.dirs) := by
+  unfold addStale at h
+  split at h
+  · rename_i hd
+    rcases List.mem_cons.mp h with h | h
+    · exact Or.inr ⟨h, hd⟩
+    · exact Or.inl h
+  · exact Or.inl h
+
+theorem intact_stale (s : St) (p : Nat) (nm : String) (q : Nat) (h : Intact s q) : Intact (addStale s p nm) q := by
+  obtain ⟨h0, h1, h2⟩ := h
+  refine ⟨stale_disk _ _ _ _ h0, stale_disk _ _ _ _ h1, ?_⟩
+  intro adr hl a ha
+  rw [(stale_ctl s p nm).2.2.2.2.2.2.2.1] at hl
+  exact stale_disk _ _ _ _ (h2 adr hl a ha)
+
+theorem good_stale (s : St) (hg : Good s) (p : Nat) (nm : String) : Good (addStale s p nm) := by
+  obtain ⟨h1, h2, h3, h4, h5, _⟩ := stale_ctl s p nm
+  refine ⟨?_, ?_, ?_, ?_⟩
+  · rw [h3, h2, h1, h4]; exact hg.olds_dead
+  · rw [h2, h4]; exact hg.live_lt
+  · rw [h5, h4]; exact hg.td_lt
+  · rw [h2]; exact fun q hq => intact_stale s p nm q (hg.live_intact q hq)
+
+theorem prot_stale (s : St) (hp : Prot s) (p : Nat) (nm : String) : Prot (addStale s p nm) := by
+  obtain ⟨h1, _, h3, h4, _, h6, h7, _⟩ := stale_ctl s p nm
+  refine ⟨?_, ?_, ?_, ?_⟩
+  · rw [h6, h4]; exact hp.restart_lt
+  · rw [h6]; exact fun q hq => intact_stale s p nm q (hp.restart_intact q hq)
+  · rw [h3, h1]; exact hp.olds_len
+  · rw [h6, h3, h1, h7]; exact hp.restart_prot
+
 end Infretis.Store
